@@ -23,7 +23,7 @@ OBLIGATIONS = [
   Ob('C13.opposite_2', H, 'h_opposite', tier='thorough', unwind=8, defines={'NF': 2, 'NV': 4}, max_alloc=64,
      bound='phase 1 on EVERY list of 2 triangles over vertex ids 0..3', covers='CornerTable::ComputeOppositeCorners'),
   Ob('C13.break_3', H, 'h_break', tier='thorough', unwind=10, backend='kissat', defines={'NF': 3, 'NV': 5}, max_alloc=64, mem_gb=20, timeout=3400, unwindset=br_bounds(3, 5),
-     bound='phase 2 from ANY consistent table of 3 triangles over vertex ids 0..4 (the edge-breaking branch is reachable from 3 faces on)',
+     bound='phase 2 from ANY consistent table of 3 triangles over vertex ids 0..4 (a fold can be detected but no link can be removed below 4 faces: decides termination and that nothing is changed)',
      covers='CornerTable::BreakNonManifoldEdges'),
   Ob('C13.vertex_corners_3', H, 'h_vertex_corners', tier='thorough', unwind=11, defines={'NF': 3, 'NV': 5}, max_alloc=64, stubs=NOGROW, mem_gb=20,
      bound='phase 3 from ANY consistent table of 3 triangles over vertex ids 0..4, any vertex count covering the ids',
@@ -35,7 +35,7 @@ OBLIGATIONS = [
      bound='phase 2 from ANY consistent table of 4 triangles over vertex ids 0..4 (not registered: no verdict within the thorough cap)',
      covers='CornerTable::BreakNonManifoldEdges'),
   Ob('C13.break_3_hits', H, 'h_break', tier='extended', unwind=10, backend='kissat', defines={'NF': 3, 'NV': 5, 'BREAK_HITS': 1}, max_alloc=64, mem_gb=20, unwindset=br_bounds(3, 5),
-     bound='reachability twin of C13.break_3: its vacuity witness is reachable only through the edge-breaking branch', covers='CornerTable::BreakNonManifoldEdges'),
+     bound='reachability twin of C13.break_3: its vacuity witness is reachable only if some link is removed (comes back unreachable for 3 faces)', covers='CornerTable::BreakNonManifoldEdges'),
 ]
 META = {
   'explanation': 'CornerTable::Init = ComputeOppositeCorners; BreakNonManifoldEdges; ComputeVertexCorners. Each phase is decided from an arbitrary state satisfying the post-condition of the previous phase (predicate opposite_ok_at in harness/C13/ct.cc), so the phase obligations compose to Init for the stated sizes; init_2 decides the composition directly on two triangles.',
